@@ -234,7 +234,10 @@ impl Table {
 
     /// Returns an accessor to a key's formatting
     pub fn key(&self, key: &str) -> Option<&'_ Key> {
-        self.items.get_full(key).map(|(_, key, _)| key)
+        self.items
+            .get_full(key)
+            .filter(|(_, _, value)| !value.is_none())
+            .map(|(_, key, _)| key)
     }
 
     /// Returns an accessor to a key's formatting
@@ -242,6 +245,7 @@ impl Table {
         use indexmap::map::MutableKeys;
         self.items
             .get_full_mut2(key)
+            .filter(|(_, _, value)| !value.is_none())
             .map(|(_, key, _)| key.as_mut())
     }
 
@@ -281,6 +285,14 @@ impl Table {
 }
 
 impl Table {
+    /// Drops the placeholder (`Item::None`) that mutable indexing may have left under `key`,
+    /// so that the key is vacant for the entry / insert / remove paths, like for every reader.
+    pub(crate) fn remove_placeholder(&mut self, key: &str) {
+        if let Some(Item::None) = self.items.get(key) {
+            self.items.shift_remove(key);
+        }
+    }
+
     /// Returns an iterator over all key/value pairs, including empty.
     pub fn iter(&self) -> Iter<'_> {
         Box::new(
@@ -319,6 +331,7 @@ impl Table {
 
     /// Gets the given key's corresponding entry in the Table for in-place manipulation.
     pub fn entry<'a>(&'a mut self, key: &str) -> Entry<'a> {
+        self.remove_placeholder(key);
         // Accept a `&str` rather than an owned type to keep `InternalString`, well, internal
         match self.items.entry(key.into()) {
             indexmap::map::Entry::Occupied(entry) => Entry::Occupied(OccupiedEntry { entry }),
@@ -328,6 +341,7 @@ impl Table {
 
     /// Gets the given key's corresponding entry in the Table for in-place manipulation.
     pub fn entry_format<'a>(&'a mut self, key: &Key) -> Entry<'a> {
+        self.remove_placeholder(key.get());
         // Accept a `&Key` to be consistent with `entry`
         match self.items.entry(key.clone()) {
             indexmap::map::Entry::Occupied(entry) => Entry::Occupied(OccupiedEntry { entry }),
@@ -411,6 +425,7 @@ impl Table {
     /// Inserts a key-value pair into the map.
     pub fn insert(&mut self, key: &str, item: Item) -> Option<Item> {
         use indexmap::map::MutableEntryKey;
+        self.remove_placeholder(key);
         let key = Key::new(key);
         match self.items.entry(key.clone()) {
             indexmap::map::Entry::Occupied(mut entry) => {
@@ -428,6 +443,7 @@ impl Table {
     /// Inserts a key-value pair into the map.
     pub fn insert_formatted(&mut self, key: &Key, item: Item) -> Option<Item> {
         use indexmap::map::MutableEntryKey;
+        self.remove_placeholder(key.get());
         match self.items.entry(key.clone()) {
             indexmap::map::Entry::Occupied(mut entry) => {
                 *entry.key_mut() = key.clone();
@@ -443,11 +459,13 @@ impl Table {
 
     /// Removes an item given the key.
     pub fn remove(&mut self, key: &str) -> Option<Item> {
+        self.remove_placeholder(key);
         self.items.shift_remove(key)
     }
 
     /// Removes a key from the map, returning the stored key and value if the key was previously in the map.
     pub fn remove_entry(&mut self, key: &str) -> Option<(Key, Item)> {
+        self.remove_placeholder(key);
         self.items.shift_remove_entry(key)
     }
 
@@ -483,8 +501,9 @@ impl std::fmt::Display for Table {
 impl<K: Into<Key>, V: Into<Item>> Extend<(K, V)> for Table {
     fn extend<T: IntoIterator<Item = (K, V)>>(&mut self, iter: T) {
         for (key, value) in iter {
-            let key = key.into();
+            let key: Key = key.into();
             let value = value.into();
+            self.remove_placeholder(key.get());
             self.items.insert(key, value);
         }
     }
@@ -506,7 +525,12 @@ impl IntoIterator for Table {
     type IntoIter = IntoIter;
 
     fn into_iter(self) -> Self::IntoIter {
-        Box::new(self.items.into_iter().map(|(k, value)| (k.into(), value)))
+        Box::new(
+            self.items
+                .into_iter()
+                .filter(|(_, value)| !value.is_none())
+                .map(|(k, value)| (k.into(), value)),
+        )
     }
 }
 
